@@ -106,8 +106,10 @@ def within (fs : List Gene) (q : Loc) (ov : Bool) : List Gene :=
 
 /-! ### areas (CDS collections) -/
 
+/-- the collection's class; `sideProto` = `SideloadedProtocluster` (a protocluster whose `definition_cdses`
+    is always empty) -/
 inductive Kind where
-  | proto | cand | sub | region
+  | proto | cand | sub | region | sideProto
 deriving DecidableEq, Repr, Inhabited
 
 /-- a `CDSCollection` object: identity, class, location, (protoclusters) core location and product,
@@ -194,6 +196,7 @@ def chooseSection (areaLoc : Loc) (g : Gene) (given : Option Section) : Option S
 --   for child in self._children: if cds.is_contained_by(child): child.add_cds(cds, section)
 --   Protocluster: if cds.is_contained_by(self.core_location) and a CORE function names self.product: add to definition
 --   Region: cds.region = self
+--   SideloadedProtocluster: `definition_cdses` always returns the empty set, so nothing is recorded for it
 -- (a child's own containment check is the `if` that guards the call)
 mutual
 def pushDown (g : Gene) (given : Option Section) : AreaT → Rec → Rec
@@ -257,6 +260,7 @@ def addArea (r : Rec) (a : AreaT) : E Rec :=
   else if a.loc.end > r.len then throw "assertion"
   else match a.kind with
     | .proto => addFound { r with protos := r.protos ++ [a] } a
+    | .sideProto => addFound { r with protos := r.protos ++ [a] } a
     | .cand => addFound { r with cands := r.cands ++ [a] } a
     | .sub => addFound { r with subs := r.subs ++ [a] } a
     | .region =>
@@ -293,18 +297,38 @@ def slotFeatures (r : Rec) (aid : Nat) (s : Section) : Rec × List Nat :=
     let v := r.section aid s
     ({ r with slotVal := ((aid, s), v) :: r.slotVal, slotClean := (aid, s) :: r.slotClean }, v)
 
-/-- `collection.cds_children` (`_SectionedCDSCache.features`): regenerated when dirty; the tuple's main
-    sequence is the live dictionary itself, its three sections are snapshots -/
+/-- `_SectionedCDSCache.features` as far as the caches go: regenerated when dirty -/
+def peekRegen (r : Rec) (aid : Nat) : Rec :=
+  if r.clean.contains aid then r
+  else
+    let p1 := slotFeatures r aid .pre
+    let p2 := slotFeatures p1.1 aid .cross
+    let p3 := slotFeatures p2.1 aid .post
+    { p3.1 with tupleVal := (aid, [p1.2, p2.2, p3.2]) :: p3.1.tupleVal, clean := aid :: p3.1.clean }
+
+/-- `collection.cds_children`: the tuple's main sequence is the live dictionary itself, its three sections
+    are snapshots -/
 def peekArea (r : Rec) (aid : Nat) : Rec :=
-  let r1 :=
-    if r.clean.contains aid then r
-    else
-      let p1 := slotFeatures r aid .pre
-      let p2 := slotFeatures p1.1 aid .cross
-      let p3 := slotFeatures p2.1 aid .post
-      { p3.1 with tupleVal := (aid, [p1.2, p2.2, p3.2]) :: p3.1.tupleVal, clean := aid :: p3.1.clean }
+  let r1 := peekRegen r aid
   let snap := ((r1.tupleVal.find? fun x => x.1 == aid).map (·.2)).getD [[], [], []]
   { r1 with log := r1.log ++ [r1.children aid :: snap] }
+
+/-- `cds in collection` (`CDSCollection.__contains__` → `_CDSCache.__contains__`): no cache is touched -/
+def hasCds (r : Rec) (aid gid : Nat) : Rec :=
+  { r with log := r.log ++ [[[if (r.children aid).contains gid then 1 else 0]]] }
+
+/-- position of the first `x` in a list -/
+def indexIn (x : Nat) : List Nat → Option Nat
+  | [] => none
+  | y :: ys => if y == x then some 0 else (indexIn x ys).map (· + 1)
+
+/-- `collection.cds_children.index(cds)` (`_SectionedCDSTuple.index` with the default limits): the position in
+    insertion order; IndexError when the gene is not listed -/
+def indexOf (r : Rec) (aid gid : Nat) : E Rec :=
+  let r1 := peekRegen r aid
+  match indexIn gid (r1.children aid) with
+  | some i => pure { r1 with log := r1.log ++ [[[i]]] }
+  | none => throw "IndexError"
 
 def sortNat (l : List Nat) : List Nat := l.foldr (fun x acc => (acc.filter (· < x)) ++ x :: acc.filter (fun y => !(y < x))) []
 
@@ -330,6 +354,8 @@ inductive Op where
   | peekArea (aid : Nat)
   | byName (gid : Nat)
   | withinRegions
+  | hasCds (aid gid : Nat)
+  | indexOf (aid gid : Nat)
 deriving Repr, Inhabited
 
 def step (r : Rec) : Op → E Rec
@@ -343,6 +369,8 @@ def step (r : Rec) : Op → E Rec
   | .peekArea aid => pure (peekArea r aid)
   | .byName gid => getByName r gid
   | .withinRegions => pure (withinRegions r)
+  | .hasCds aid gid => pure (hasCds r aid gid)
+  | .indexOf aid gid => indexOf r aid gid
 
 /-- a history of calls on a fresh record of the given length -/
 def run (len : Int) (ops : List Op) : E Rec := ops.foldlM step { len := len }
